@@ -214,6 +214,35 @@ def data_case(ctx, rng, idx):
                               {'id': _id, 'trace': got, 'rows': want},
                               feats)
                 return
+        # a second frame on the SAME figure (the follow-up period of the same
+        # individuals, with other doses): its rows are drawn as well
+        if idx % 3 == 0 and len(drows):
+            df2 = df.copy()
+            df2[keys['time']] = df2[keys['time']] + 11.0
+            m2 = df2[keys['dose']].notnull()
+            df2.loc[m2, keys['dose']] = df2.loc[m2, keys['dose']] * 1.5 + 0.25
+            try:
+                fig.add_data(df2, observable=observable if explicit else None,
+                             **kw)
+            except Exception as e:      # noqa
+                ctx.violation_exc('add_data_raises', e,
+                                  {'case': feats, 'call': 'second frame'},
+                                  feats)
+                return
+            ctx.count('second_frames_on_one_figure')
+            traces2 = list(fig._fig.data)[len(traces):]
+            dose2 = [t for t in traces2 if t.yaxis != 'y2']
+            d2 = df2[df2[keys['dose']].notnull()]
+            want_all = _pairs(d2[d2[keys['id']].isin(ids)][keys['time']],
+                              d2[d2[keys['id']].isin(ids)][keys['dose']])
+            got_all = sorted(p_ for t in dose2 for p_ in _pairs(
+                t.x if t.x is not None else [],
+                t.y if t.y is not None else []))
+            if got_all != sorted(want_all):
+                ctx.violation('dose_panel_holds_the_individuals_dose_rows',
+                              'dose_rows_of_a_second_frame:' + pname,
+                              {'drawn': got_all[:8],
+                               'dose rows': sorted(want_all)[:8]}, feats)
 
 
 def _limits_exist(s, p):
